@@ -656,6 +656,9 @@ func controlInjection(id string, seed uint64) runner.Result {
 		inject(sid, &mid, false, &next)
 		b = refwire.Encode(b, refwire.Frame{Stream: sid, Message: mid, Kind: 6, Done: true})
 		mid++
+		// a newer peer may go on talking in control packets after its half-close (a keep-alive while it
+		// waits for the answer): the stream is still open then
+		inject(sid, &mid, false, &next)
 		raw.Write(b)
 		b = nil
 		census.Quiesce(rig.Watchdog) // the reply has arrived: the peer may move on
